@@ -106,6 +106,7 @@ func runHarness(l *loaded, spec HarnessSpec, trace bool, dumpDir string) *Harnes
 	m.RepoPrefix = repoMod
 	m.ExecReal["container/heap"] = true
 	m.ExecReal["io"] = true
+	m.ExecReal["sort"] = true
 	m.Trace = trace
 	if spec.Unwind > 0 {
 		m.Unwind = spec.Unwind
